@@ -131,15 +131,7 @@ func RunHistory(rc *RunCtx, p *Project, o *OptModel, d *verifsim.Disk, cfg HistC
 			} else if cancelAfter >= 0 {
 				rec.CancelIssued = true
 				theCtx := ctx
-				parallel(
-					func() { rec.Res = theCtx.Rebuild() },
-					func() {
-						for i := 0; i < cancelAfter; i++ {
-							verifsim.Yield("harness", "spin")
-						}
-						theCtx.Cancel()
-					},
-				)
+				cancelRebuild(theCtx, cancelAfter, func(r api.BuildResult) { rec.Res = r })
 			} else {
 				rec.Res = ctx.Rebuild()
 			}
@@ -183,4 +175,42 @@ func histSample(recs []*BuildRec) []interface{} {
 		out = append(out, map[string]interface{}{"step": r.Step, "edits": r.Edits, "errors": len(r.Res.Errors), "outputs": len(r.Res.OutputFiles), "dirty": r.Dirty})
 	}
 	return out
+}
+
+// cancelRebuild runs Rebuild while a second client cancels. when < 1000: the canceller
+// spins for that many of its own scheduling points first; when >= 1000: the cancellation
+// lands exactly before the (when-999)-th poll of the cancel flag by the build (every
+// CancelFlag.DidCancel call is a scheduling point of kind "cancelpoll").
+func cancelRebuild(ctx api.BuildContext, when int, store func(api.BuildResult)) {
+	if when >= 1000 {
+		verifsim.SetTrigger("cancelpoll", when-999)
+		parallel(
+			func() {
+				store(ctx.Rebuild())
+				verifsim.FireTrigger()
+			},
+			func() {
+				verifsim.WaitTrigger()
+				ctx.Cancel()
+			},
+		)
+		return
+	}
+	parallel(
+		func() { store(ctx.Rebuild()) },
+		func() {
+			for i := 0; i < when; i++ {
+				verifsim.Yield("harness", "spin")
+			}
+			ctx.Cancel()
+		},
+	)
+}
+
+// drawCancel: half of the cancellations are placed at a poll point, half by spinning.
+func drawCancel(g G) int {
+	if g.n(2) == 0 {
+		return 1000 + g.n(24)
+	}
+	return g.n(500)
 }
